@@ -95,7 +95,7 @@ def canon_result(env, r):
 
 def run(ctx):
     rng = ctx.rng
-    nh = ctx.n(400, 12000)
+    nh = ctx.n(1200, 20000)
     stats = {"calls": 0, "out_of_domain_calls": 0, "typeerror_both": 0, "absence_both": 0}
     for it in range(nh):
         kind = rng.choice(["BTree", "TreeSet", "Bucket", "Set", "BTree"])
@@ -160,6 +160,44 @@ def run(ctx):
                                     bad = ("rejected-write-modified", name, impl)
                         if name in ("get", "in", "has_key", "item", "getd", "pop", "popd") and r2["C"][0] in ("ok", "KeyError"):
                             stats["absence_both"] += 1
+                # ---- keys / values at the edges of the family's domain: both must treat them alike (and restore)
+                if bad is None and rng.random() < 0.12 and (f.kk in BOUNDS or (f.vk in BOUNDS and not setlike)):
+                    role = rng.choice([r for r, tc in (("key", f.kk), ("value", f.vk)) if tc in BOUNDS and not (r == "value" and setlike)])
+                    lo, hi = BOUNDS[f.kk if role == "key" else f.vk]
+                    x = rng.choice([c for c in (lo, lo + 1, hi, hi - 1, (lo + hi) // 2, (lo + hi) // 2 + 1, 2**31 - 1, 2**31, 2**32 - 1, 2**63 - 1, 2**63, -2**31, -2**31 - 1) if lo <= c <= hi])
+                    probe = {}
+                    for impl in ("C", "Py"):
+                        t = ts[impl]
+                        try:
+                            if role == "key":
+                                if x in t:
+                                    probe[impl] = "present"
+                                    continue
+                                if setlike:
+                                    t.add(x)
+                                else:
+                                    t[x] = envs["C"].v(1)
+                                back = [k for k in t if k == x]
+                                probe[impl] = ("ok", repr(back), type(back[0]).__name__ if back else None)
+                                if setlike:
+                                    t.remove(x)
+                                else:
+                                    del t[x]
+                            else:
+                                k0 = envs["C"].k(rng.randrange(u)) if not probe else k0
+                                had = k0 in t
+                                old = t[k0] if had else None
+                                t[k0] = x
+                                probe[impl] = ("ok", repr(t[k0]), type(t[k0]).__name__)
+                                if had:
+                                    t[k0] = old
+                                else:
+                                    del t[k0]
+                        except Exception as e:  # noqa
+                            probe[impl] = ("raises", type(e).__name__)
+                    stats["edge_value_probes"] = stats.get("edge_value_probes", 0) + 1
+                    if probe.get("C") != probe.get("Py"):
+                        bad = ("edge-of-domain-" + role, "set", probe.get("C"), probe.get("Py"), repr(x))
                 # ---- contents, shape, serialized state
                 if bad is None and (i % 5 == 4 or i == len(calls) - 1):
                     cont = {impl: list(ts[impl]) if setlike else list(ts[impl].items()) for impl in ("C", "Py")}
